@@ -57,3 +57,14 @@ Definition hash_body_prefix (t : Z) (s : subject) : option bytes :=
 Theorem C01_attestation_prefix_refuted :
   exists s s', s <> s' /\ hash_body_prefix 22 s = hash_body_prefix 22 s'.
 Proof. exists (SUid [1] [65]), (SUid [1] [66]). split; [discriminate|reflexivity]. Qed.
+
+(* a signature whose issuer is neither the verifying key nor one of its subkeys is never examined: the call raises
+   ("No signatures to verify"), so it can never be reported good *)
+Theorem C01_wrong_key_never_examined : forall pk_verify pub ids issues fails issuer s subj,
+  ~ In issuer ids -> verify_explicit pk_verify pub ids issues fails issuer s subj = None.
+Proof. exact wrong_key_never_examined. Qed.
+Print Assumptions C01_wrong_key_never_examined.
+Theorem C01_filter_sigs_sound : forall (ids : list bytes) (sigs : list (bytes * nat)) s,
+  In s (filter_sigs ids sigs) <-> In s sigs /\ In (fst s) ids.
+Proof. intros. apply filter_sigs_sound. Qed.
+Print Assumptions C01_filter_sigs_sound.
